@@ -228,10 +228,21 @@ class Proxy(threading.Thread):
             self.pump_raw(c, l, first)
             return
         with self.mu:
-            self.nlink += 1
-            uid = self.nlink
-            u = UpLink(uid, c, l)
-            self.links[uid] = u
+            # (a connection that was accepted before the leader became unreachable for this follower but has not carried a
+            #  frame yet - a slow follower on a busy machine - must not survive the block: nothing is forwarded on it)
+            refused = self.blocked
+            if not refused:
+                self.nlink += 1
+                uid = self.nlink
+                u = UpLink(uid, c, l)
+                self.links[uid] = u
+        if refused:
+            for s_ in (c, l):
+                try:
+                    s_.close()
+                except OSError:
+                    pass
+            return
         self.sink.emit({"e": "up_open", "node": self.node, "up": uid})
         u.fbuf = first
         self.pump_up(u)
@@ -318,7 +329,8 @@ class Proxy(threading.Thread):
             ct = fr[2]
             ev = {"e": "up_req", "node": self.node, "up": u.uid, "rid": rid, "ct": ct}
             if ct in (1, 2):
-                ev.update({"key": id_of(fr[37:53]), "lid": id_of(fr[21:37]), "flag": fr[19]})
+                to, tf, ex, ef, cnt = struct.unpack_from("<HHHHH", fr, 53)
+                ev.update({"key": id_of(fr[37:53]), "lid": id_of(fr[21:37]), "flag": fr[19], "to": to, "tf": tf, "ex": ex, "ef": ef, "cnt": cnt, "rc": fr[63]})
                 u.reqs.append((rid, ct, ev["key"], ev["lid"]))
             self.sink.emit(ev)
             u.l.sendall(fr + (data or b""))
@@ -448,7 +460,15 @@ class TextConn:
                 a += ["SET", q["data"][6:].decode()]
             return a
         if q["cmd"] == "S":
-            return ["SET", k16(q["key"]).hex(), q["val"]]
+            # SET key val [EX s | PX ms] / SETEX key s val / PSETEX key ms val  (lock + value requests underneath: LockId = key,
+            # the expiry of the command is the expiry of the hold)
+            key, ex, ms = k16(q["key"]).hex(), q.get("ex", 0), bool(q.get("ef", 0) & 0x0400)
+            form = q.get("form", "set")
+            if not ex:
+                return ["SET", key, q["val"]]
+            if form == "setex":
+                return ["PSETEX" if ms else "SETEX", key, str(ex), q["val"]]
+            return ["SET", key, q["val"], "PX" if ms else "EX", str(ex)]
         if q["cmd"] == "G":
             return ["GET", k16(q["key"]).hex()]
         if q["cmd"] == "D":
@@ -712,6 +732,8 @@ class SeqRunner:
             {"op":"kill_leader"}             SIGKILL of the leader (last sequence of a run only)
             {"op":"reconnect","c":cid}       close and reopen client connection c
             {"op":"wait","ms":n}
+            {"op":"wait_notice","n":k,"max_ms":m,"settle_ms":s}   until k EXPRIED frames of this sequence have been seen (on an
+                                             upstream link of node N, or by a binary client of the leader), at most m ms; then s ms
     """
     def __init__(self, cluster, fname, next_rid):
         self.cl, self.fname = cluster, fname
@@ -746,7 +768,8 @@ class SeqRunner:
             if only is not None and cid != only:
                 continue
             if not conn.open and conn.proto == "text":
-                continue
+                continue        # (a text connection is read only while a request is open: whatever the server wrote meanwhile
+                                #  is what the client takes as the answer of its next request)
             reps = conn.poll(timeout)
             got += len(reps)
             self.record_replies(conn, reps)
@@ -776,10 +799,24 @@ class SeqRunner:
                 if not self.poll_all(0.02):
                     time.sleep(0.005)
             self.poll_all(0.0)
+            # an expiry notice that crossed the upstream link a moment ago is given time to reach its binary client
+            t_n = time.time() + 2.0
+            while self.notices_due() and time.time() < t_n:
+                self.poll_all(0.02)
             for cid, rid in sorted(self.pending):
                 self.emit({"e": "unanswered", "conn": cid, "rid": rid})
             self.snapshot(sc, role)
-            self.emit({"e": "end", "name": sc["name"], "complete": True, "wall_ms": int((time.time() - t0) * 1000)})
+            # a hold may have expired while the snapshots were taken: its notice gets its chance to reach the binary client, and
+            # the history ends at a moment when no notice is on its way (decided under the lock the proxy threads record with)
+            t_n = time.time() + 3.0
+            while True:
+                self.poll_all(0.0)
+                with self.sink.lock:
+                    if not self.notices_due(self.sink.ev) or time.time() > t_n:
+                        if self.sink.on:
+                            self.sink.ev.append({"e": "end", "name": sc["name"], "complete": True, "wall_ms": int((time.time() - t0) * 1000)})
+                        break
+                self.poll_all(0.02)
         finally:
             self.px.set_hold(False)
             if self.px.blocked:
@@ -919,8 +956,48 @@ class SeqRunner:
             end = time.time() + st["ms"] / 1000.0
             while time.time() < end:
                 self.poll_all(min(0.02, max(0.0, end - time.time())))
+        elif op == "wait_notice":
+            # the holds expire on the LEADER's clock: wait for the evidence (the notice frame), not for a guessed time
+            end = time.time() + st.get("max_ms", 4000) / 1000.0
+            while self.notices_seen() < st["n"] and time.time() < end:
+                self.poll_all(0.01)
+            self.emit({"e": "note", "what": "wait_notice", "want": st["n"], "seen": self.notices_seen()})
+            end = time.time() + st.get("settle_ms", 40) / 1000.0
+            while time.time() < end:
+                self.poll_all(min(0.01, max(0.0, end - time.time())))
         else:
             raise InfraError("unknown step " + op)
+
+    def notices_seen(self):
+        """EXPRIED frames of the running sequence: on the upstream links of node N and on binary connections to the leader."""
+        with self.sink.lock:
+            evs = list(self.sink.ev)
+        direct = {e["id"] for e in evs if e["e"] == "req" and e["where"] == "L"}
+        mine = {e["rid"] for e in evs if e["e"] == "up_req"}        # (a pooled upstream link may still carry the notice of an earlier history)
+        return sum(1 for e in evs if (e["e"] == "up_reply" and e["res"] == 9 and e["rid"] in mine) or (e["e"] == "reply" and e["res"] == 9 and e["rid"] in direct))
+
+    def notices_due(self, evs=None):
+        """Notices the leader sent down an upstream link for a request of a binary client of N that is still connected and has
+        not received it yet."""
+        if evs is None:
+            with self.sink.lock:
+                evs = list(self.sink.ev)
+        answered, sent, got, due = set(), {}, {}, {}
+        for e in evs:
+            t = e["e"]
+            if t == "req" and e["proto"] == "bin" and e["where"] == "N":
+                sent[e["id"]] = e["conn"]
+            elif t == "reply" and e["rid"] in sent:
+                if e["rid"] in answered and e["res"] == 9:
+                    got[e["rid"]] = got.get(e["rid"], 0) + 1
+                answered.add(e["rid"])
+            elif t == "up_reply" and e["res"] == 9 and e["rid"] in sent:
+                due[e["rid"]] = due.get(e["rid"], 0) + 1
+            elif t == "closed":
+                sent = {r: c for r, c in sent.items() if c != e["conn"]}
+            elif t in ("cut", "up_closed", "gone", "role"):
+                due = {}
+        return {r for r, n in due.items() if r in sent and got.get(r, 0) < n and not self.conns[sent[r]].closed}
 
     def find_up_of(self, conn):
         """Upstream connection of a client connection: the live one that carried its most recent forwarded request."""
@@ -942,11 +1019,12 @@ class SeqRunner:
         """Holds of the sequence's keys on the leader and on the follower, after the follower reports the leader's position."""
         keys = sc["keys"] + sc.get("vkeys", [])
         if self.leader_dead:
-            self.emit({"e": "snap", "node": self.fname, "lead": False, "caught": False, "alone": True, "keys": self.cl.show_keys(self.fname, keys)})
+            self.emit({"e": "snap", "node": self.fname, "lead": False, "caught": False, "alone": True, "ts": int(time.time()), "keys": self.cl.show_keys(self.fname, keys)})
             return
         caught = False
         if role["N"] == "follower":
             caught = self.cl.wait_caughtup(self.fname, 15)
+        ts_snap = int(time.time())       # (taken BEFORE the holds are read: a hold that may expire from here on is not judged)
         ls, fs = self.cl.show_keys("L", keys), self.cl.show_keys(self.fname, keys)
         if role["N"] == "follower":
             # quiescence: the leader pushes a record to its followers AFTER it answered the client and the follower applies
@@ -961,9 +1039,10 @@ class SeqRunner:
             while not agree(ls, fs) and time.time() < end:
                 time.sleep(0.05)
                 caught = self.cl.wait_caughtup(self.fname, 2)
+                ts_snap = int(time.time())
                 ls, fs = self.cl.show_keys("L", keys), self.cl.show_keys(self.fname, keys)
-        self.emit({"e": "snap", "node": "L", "lead": True, "caught": True, "keys": ls})
-        self.emit({"e": "snap", "node": self.fname, "lead": role["N"] == "leader", "caught": caught, "keys": fs})
+        self.emit({"e": "snap", "node": "L", "lead": True, "caught": True, "ts": ts_snap, "keys": ls})
+        self.emit({"e": "snap", "node": self.fname, "lead": role["N"] == "leader", "caught": caught, "ts": ts_snap, "keys": fs})
         if role["N"] == "follower" and sc.get("vkeys"):
             # value registers read back through both nodes (text GET is served from the node's own state)
             for nm in ("L", self.fname):
@@ -1159,16 +1238,18 @@ class ReplsetRunner:
             keys = sc["keys"]
             def agree(a, b):
                 return all({h["lid"] for h in y["holds"]} == {h["lid"] for h in x["holds"] if h["aof"]} for x, y in zip(a, b))
+            ts_snap = int(time.time())
             ls = self.show_keys(leader, keys)
             fs = {self.name(nd): self.show_keys(nd, keys) for nd in self.nodes if nd is not leader}
             end = time.time() + 10
             while not all(agree(ls, f) for f in fs.values()) and time.time() < end:
                 time.sleep(0.1)
+                ts_snap = int(time.time())
                 ls = self.show_keys(leader, keys)
                 fs = {self.name(nd): self.show_keys(nd, keys) for nd in self.nodes if nd is not leader}
-            self.emit({"e": "snap", "node": self.name(leader), "lead": True, "caught": True, "keys": ls})
+            self.emit({"e": "snap", "node": self.name(leader), "lead": True, "caught": True, "ts": ts_snap, "keys": ls})
             for nm, f in sorted(fs.items()):
-                self.emit({"e": "snap", "node": nm, "lead": False, "caught": caught, "keys": f})
+                self.emit({"e": "snap", "node": nm, "lead": False, "caught": caught, "ts": ts_snap, "keys": f})
             self.emit({"e": "end", "name": sc["name"], "complete": True, "wall_ms": int((time.time() - t0) * 1000)})
             return self.ev
         finally:
